@@ -25,7 +25,7 @@ class World(object):
             regs.append(RectangularRegion(x1=40, y1=40, x2=60, y2=60, id="r")); self.regions.append(("R", (40, 40, 60, 60)))
         if "D" in cfg["regions"]:
             regs.append(CircularRegion(cx=50, cy=50, r=10, id="d")); self.regions.append(("D", (50, 50, 10)))
-        self.h = mk(regs, g90e=cfg.get("g90e", False), enter=cfg.get("enter"), exit=cfg.get("exit"))
+        self.h = mk(regs, g90e=cfg.get("g90e", False), enter=(list(cfg["enter"]) if cfg.get("enter") else None), exit=(list(cfg["exit"]) if cfg.get("exit") else None))
         self.A = Printer(cfg.get("g90e", False)); self.B = Printer(cfg.get("g90e", False))
         self.enabled = True; self.episode = False; self.maxDepthB = Fr(0)
         self.comm = Comm()
@@ -104,7 +104,7 @@ class World(object):
             for c in fwd:
                 xy0 = (A.p["X"], A.p["Y"])
                 A.execute(c)
-                if check and (A.p["X"], A.p["Y"]) != xy0 and A.p["Z"] != max(az0, B.p["Z"]):
+                if check and (A.p["X"], A.p["Y"]) != xy0 and abs(A.p["Z"] - max(az0, B.p["Z"])) > TOL:
                     raise Viol("C03 z-order on disable: %s" % fwd)
             if check and wasEpisode: self.check_sync("disable")
             return fwd
@@ -131,20 +131,20 @@ class World(object):
             moved = (A.p["X"], A.p["Y"], A.p["Z"]) != xyz0
             if self.enabled and (A.p["X"], A.p["Y"]) != xyz0[:2] and inside(A.p["X"], A.p["Y"], self.regions):
                 raise Viol("C01 moved into region by %r (for %r)" % (c, cmd))
-            if self.episode and (moved or A.fil > fil0):
+            if self.episode and (moved or A.fil > fil0 + TOL):
                 raise Viol("C01 motion/extrusion inside episode by %r (for %r)" % (c, cmd))
-            if closing and (A.p["X"], A.p["Y"]) != xyz0[:2] and A.p["Z"] != max(az0, B.p["Z"]):
+            if closing and (A.p["X"], A.p["Y"]) != xyz0[:2] and abs(A.p["Z"] - max(az0, B.p["Z"])) > TOL:
                 raise Viol("C03 z-order: travel at Z=%s, expected %s: %s" % (A.p["Z"], max(az0, B.p["Z"]), fwd))
-            if A.fil > fil0 and (A.p["X"], A.p["Y"]) != xyz0[:2]:
+            if A.fil > fil0 + TOL and (A.p["X"], A.p["Y"]) != xyz0[:2]:
                 # a printing move extrudes
-                if d0 != (B.hwm - bfil0 if False else self._bdepth0) or fw0 != self._bfw0:
+                if abs(d0 - self._bdepth0) > TOL or fw0 != self._bfw0:
                     raise Viol("C05 printing move %r extrudes at depth A=%s B=%s fw A=%s B=%s" % (c, d0, self._bdepth0, fw0, self._bfw0))
             if c == cmd and isMove and not self.episode and not closing and B.fil - bfil0 > 0:
-                if A.fil - fil0 != B.fil - bfil0:
+                if abs((A.fil - fil0) - (B.fil - bfil0)) > TOL:
                     raise Viol("C04 forwarded move %r pushes %s, file says %s (list %s)" % (c, A.fil - fil0, B.fil - bfil0, fwd))
         if check:
-            if A.depth() > self.maxDepthB: raise Viol("C05 deeper than ever requested: A=%s max=%s after %r -> %s" % (A.depth(), self.maxDepthB, cmd, fwd))
-            if A.depth() < B.depth(): raise Viol("C05 shallower than file: A=%s B=%s after %r -> %s" % (A.depth(), B.depth(), cmd, fwd))
+            if A.depth() > self.maxDepthB + TOL: raise Viol("C05 deeper than ever requested: A=%s max=%s after %r -> %s" % (A.depth(), self.maxDepthB, cmd, fwd))
+            if A.depth() < B.depth() - TOL: raise Viol("C05 shallower than file: A=%s B=%s after %r -> %s" % (A.depth(), B.depth(), cmd, fwd))
             if A.fwDouble: raise Viol("C05 firmware retract parity broken after %r -> %s" % (cmd, fwd))
             if isMove and not destIn: self.check_sync(cmd)
             if not self.episode:
